@@ -142,9 +142,9 @@ type DB struct {
 	batchMu sync.Mutex
 	batch   *batch
 
-	rwlock   sync.Mutex   // Allows only one writer at a time.
-	metalock sync.Mutex   // Protects meta page access.
-	mmaplock sync.RWMutex // Protects mmap access during remapping.
+	rwlock   verifMutex   // Allows only one writer at a time.
+	metalock verifMutex   // Protects meta page access.
+	mmaplock verifRWMutex // Protects mmap access during remapping.
 	statlock sync.RWMutex // Protects stats access.
 
 	ops struct {
